@@ -1,7 +1,7 @@
 """C19 — naken_util memory commands address the same bytes: BFS over histories of write/write16/write32 commands on five CPU
 configurations (empty and pre-loaded image), observed through print/print16/print32/disasm ranges and the simulator's fetch,
 against a byte-map reference model."""
-import itertools, re
+import itertools, re, struct
 from engine import asm, check, cpus
 from engine import run as R
 
@@ -280,6 +280,33 @@ def cli_options():
             out.append(("cli-address", "-address 0x2000 did not place the raw binary at 0x2000"))
         if any(v for v in pr[1][1].values()):
             out.append(("cli-address", "-address 0x2000 also left bytes at address 0"))
+    # -set_pc <v>: the simulator starts at v (0xffffffff is the option's own "not given" value and is not posed)
+    pcs = [0, 4, 0x10, 0x7ffc, 0x8000, 0xf800, 0xfff0]
+    mem = {}
+    for i, a in enumerate(pcs):
+        for k, b in enumerate(struct.pack("<HH", 0x4035, 0x1100 + i)):             # mov.w #0x11xx, r5
+            mem[a + k] = b
+    mem[0xfffe], mem[0xffff] = 0x00, 0xf8
+    img = hex_image(mem).encode()
+    for i, a in enumerate(pcs):
+        for spell in ("0x%x" % a, "%d" % a):
+            o = asm.util("registers\nstep\nregisters\nquit\n", ["-msp430", "-set_pc", spell, "img.hex"], files={"img.hex": img})
+            pcs_seen = [int(x, 16) for x in re.findall(r"PC: 0x([0-9a-f]+)", o.out)]
+            r5 = [int(x, 16) for x in re.findall(r"\br5: 0x([0-9a-f]+)", o.out)]
+            if o.kind != "ok" or not pcs_seen or not r5:
+                out.append(("abnormal", "-set_pc %s session failed: %s" % (spell, o.kind)))
+            elif pcs_seen[0] != a:
+                out.append(("cli-set_pc", "-msp430 -set_pc %s: the session starts with PC = 0x%04x" % (spell, pcs_seen[0])))
+            elif r5[-1] != 0x1100 + i:
+                out.append(("cli-set_pc", "-msp430 -set_pc %s: the first step did not execute the instruction at 0x%04x (r5 = 0x%04x, expected 0x%04x)" % (
+                    spell, a, r5[-1], 0x1100 + i)))
+    for a in (0, 0x1000, 0x7ffffff0, 0x80000000, 0xbfc00000, 0xfffffff0):
+        o = asm.util("registers\nquit\n", ["-mips32", "-set_pc", "0x%x" % a], files={})
+        pcs_seen = [int(x, 16) for x in re.findall(r"PC: 0x([0-9a-f]+)", o.out)]
+        if o.kind != "ok" or not pcs_seen:
+            out.append(("abnormal", "-mips32 -set_pc 0x%x session failed: %s" % (a, o.kind)))
+        elif pcs_seen[0] != a:
+            out.append(("cli-set_pc", "-mips32 -set_pc 0x%x: the session starts with PC = 0x%08x" % (a, pcs_seen[0])))
     return out
 
 
